@@ -59,7 +59,7 @@ func stubParseByteRangeMaybe(in string) *byteRange {
 }
 
 func H_C02_resumable() {
-	g := vNewEmu()
+	g := vNewEmuOn(vChoice("store", 0, 1))
 	vPut(g, "b", "neighbour", []byte("n"))
 	nb := vSnap(g, "b", "neighbour")
 	// start a session
@@ -136,7 +136,7 @@ func c02Get(g *GcsEmu, path, query string) *vRecorder {
 }
 
 func H_C02_media() {
-	g := vNewEmu()
+	g := vNewEmuOn(vChoice("store", 0, 1))
 	name := []string{"o", "dir/sub/o.txt", "a b.c"}[vChoice("name", 0, 2)]
 	payload := []string{"", "x", "\x00\xffbinary"}[vChoice("payload", 0, 2)]
 	vPut(g, "b", "neighbour", []byte("n"))
@@ -146,7 +146,14 @@ func H_C02_media() {
 	w := vNewRecorder()
 	post := &http.Request{Method: "POST", URL: &url.URL{Path: "/upload/storage/v1/b/b/o", RawQuery: "uploadType=media&name=" + url.QueryEscape(name)},
 		Header: http.Header{"Content-Type": []string{"text/mine"}}, Body: &vBody{raw: []byte(payload)}, Host: "h"}
-	g.Handler(w, post)
+	if vChoice("gzip-request-body", 0, 1) == 1 {
+		// the client compressed the request body; the wrapper in front of the handler undoes that
+		post.Header.Set("Content-Encoding", "gzip")
+		post.Body = &vBody{raw: []byte(payload), gz: true}
+		GzipRequestHandler(g.Handler)(w, post)
+	} else {
+		g.Handler(w, post)
+	}
 	vAssert(w.code == http.StatusOK, "media-upload-ok")
 	meta := w.object()
 	vAssert(meta != nil && meta.Size == uint64(len(payload)) && meta.ContentType == "text/mine" && meta.Name == name, "upload-response-metadata")
@@ -161,6 +168,7 @@ func H_C02_media() {
 		d := c02Get(g, f.path, f.query)
 		vAssert(d.code == http.StatusOK && string(d.raw) == payload, "download-returns-uploaded-bytes")
 		vAssert(d.h.Get("Content-Type") == "text/mine", "download-content-type")
+		vAssert(d.h.Get("Content-Encoding") == "", "download-of-plain-bytes-is-not-labelled-compressed")
 	}
 	md := c02Get(g, "/storage/v1/b/b/o/"+name, "")
 	mo := md.object()
@@ -190,7 +198,7 @@ func H_C02_media() {
 // H_C02_resumable_md5: a resumable session that declared an MD5. A final chunk whose bytes do not
 // hash to it is rejected and stays rejected when the client asks again; nothing becomes visible.
 func H_C02_resumable_md5() {
-	g := vNewEmu()
+	g := vNewEmuOn(vChoice("store", 0, 1))
 	good := md5.Sum([]byte("ab"))
 	declared := base64.StdEncoding.EncodeToString(good[:])
 	w := vNewRecorder()
